@@ -1,5 +1,5 @@
 INIT Init
 NEXT Next
-CONSTANTS KeyedBy = "short" MaxHist = 4
+CONSTANTS KeyedBy = "short" MaxHist = 4 GraphLen = 3 IndexMemo = "none"
 CONSTRAINT Emit
 CHECK_DEADLOCK FALSE
